@@ -30,7 +30,7 @@ def opt(name, default=None, flag=False):
     return default
 
 
-d = opt("--dir", os.path.join(HERE, "selftest", "mutants"))
+d = os.path.abspath(opt("--dir", os.path.join(HERE, "selftest", "mutants")))
 tier = opt("--tier", "quick")
 baseline = opt("--baseline", flag=True)
 allchecks = opt("--all-checks", flag=True)
